@@ -52,9 +52,9 @@ Ref(b) == /\ st[b] = "live" /\ held[b] > 0 /\ refs[b] < MaxRefs
 RECURSIVE Drop(_, _)
 Drop(b, s) ==
     IF s.refs[b] > 1 THEN [s EXCEPT !.refs[b] = s.refs[b] - 1]
-    ELSE LET s1 == [s EXCEPT !.refs[b] = 0, !.log = IF dt[b] THEN Append(s.log, 10 + b) ELSE s.log]
+    ELSE LET s1 == [s EXCEPT !.refs[b] = 0, !.log = IF dt[b] THEN Append(s.log, 1000 + b) ELSE s.log]
              s2 == IF dt[b] /\ kid[b] # 0 THEN Drop(kid[b], [s1 EXCEPT !.par[kid[b]] = 0]) ELSE s1
-         IN [s2 EXCEPT !.st[b] = "dead", !.log = Append(s2.log, 20 + b)]
+         IN [s2 EXCEPT !.st[b] = "dead", !.log = Append(s2.log, 2000 + b)]
 
 DoUnref(b) == LET r == Drop(b, [refs |-> refs, st |-> st, par |-> par, log |-> <<>>]) IN
               /\ refs' = r.refs /\ st' = r.st /\ par' = r.par
@@ -97,17 +97,17 @@ Log == Tail(obs)
 \* destructor strictly before the release of the same block, and nothing happens to blocks that stay alive
 StepDiscipline ==
     \A b \in Blocks :
-        /\ Count(Log, 10 + b) <= 1 /\ Count(Log, 20 + b) <= 1
-        /\ (Count(Log, 10 + b) = 1 => Count(Log, 20 + b) = 1)
-        /\ (Count(Log, 20 + b) = 1 => st[b] = "dead")
-        /\ (Count(Log, 10 + b) = 1 =>
-              (CHOOSE i \in 1..Len(Log) : Log[i] = 10 + b) < (CHOOSE i \in 1..Len(Log) : Log[i] = 20 + b))
-        /\ (st[b] = "live" => Count(Log, 10 + b) = 0 /\ Count(Log, 20 + b) = 0)
+        /\ Count(Log, 1000 + b) <= 1 /\ Count(Log, 2000 + b) <= 1
+        /\ (Count(Log, 1000 + b) = 1 => Count(Log, 2000 + b) = 1)
+        /\ (Count(Log, 2000 + b) = 1 => st[b] = "dead")
+        /\ (Count(Log, 1000 + b) = 1 =>
+              (CHOOSE i \in 1..Len(Log) : Log[i] = 1000 + b) < (CHOOSE i \in 1..Len(Log) : Log[i] = 2000 + b))
+        /\ (st[b] = "live" => Count(Log, 1000 + b) = 0 /\ Count(Log, 2000 + b) = 0)
 
 \* a block dies only in the step that drops its last reference (action property)
 DiesOnlyAtLastUnref ==
     [][\A b \in Blocks : (st[b] = "live" /\ st'[b] = "dead") =>
-          /\ Count(Tail(obs'), 20 + b) = 1
-          /\ (dt[b] <=> Count(Tail(obs'), 10 + b) = 1)      \* destructor iff the block has one
+          /\ Count(Tail(obs'), 2000 + b) = 1
+          /\ (dt[b] <=> Count(Tail(obs'), 1000 + b) = 1)      \* destructor iff the block has one
           /\ refs[b] = 1 \/ par[b] # 0]_vars
 =============================================================================
